@@ -6,7 +6,6 @@ import (
 	"fmt"
 	"sync"
 	"testing"
-	"time"
 
 	"pgregory.net/rapid"
 
@@ -106,7 +105,8 @@ func run4(t *testing.T, c Case4, emit func(Out4)) {
 	out := Out4{Subs: make([]SubOut, len(c.Subs))}
 	tr := &trace{}
 	vt.Run(t, watchdog, func(ctx context.Context) {
-		tr.t0 = time.Now()
+		tr.start(ctx)
+		defer tr.finish()
 		all, release := context.WithCancel(ctx)
 		defer release()
 		ll := buildList(c.List, c.Life.NotAfter(), nil)
